@@ -233,7 +233,7 @@ fn fmt_source_code_trace(
     printer
         .new_line()
         .with_margin_content(format!["{}", s.line_number])
-        .with_content(highlight_substring(&s.line_content, s.index, s.value.len()))
+        .with_content(highlight_substring(&s.line_content, s.index, s.value.chars().count()))
         .print(f)?;
     printer
         .new_line()
@@ -247,15 +247,22 @@ fn fmt_source_code_trace(
     Ok(())
 }
 
+/// Highlight part of a line. The start and the length are measured in characters, not bytes.
 fn highlight_substring(line: &str, start: usize, length: usize) -> String {
-    if line.len() < start + length {
+    let byte_index = |char_index: usize| -> Option<usize> {
+        line.char_indices()
+            .map(|(i, _)| i)
+            .chain(std::iter::once(line.len()))
+            .nth(char_index)
+    };
+    let (Some(start), Some(end)) = (byte_index(start), byte_index(start + length)) else {
         return line.into();
-    }
+    };
     format![
         "{}{}{}",
         &line[..start],
-        (&line[start..start + length]).bold(),
-        line[start + length..].trim_end(),
+        (&line[start..end]).bold(),
+        line[end..].trim_end(),
     ]
 }
 
@@ -280,7 +287,7 @@ fn fmt_source_code_trace_light(
         f,
         "{}  {}",
         prefix,
-        highlight_substring(&s.line_content, s.index, s.value.len())
+        highlight_substring(&s.line_content, s.index, s.value.chars().count())
     )?;
     writeln!(
         f,
